@@ -56,7 +56,9 @@ def on_cycle_nodes(E):
     return {n for n in adj if reach(n, n)}
 
 
-def history(nops, nres, k, preempt):
+def history(nops, nres, k, preempt, own=False):
+    """own=True: every operation o_i first acquires r_i (the classic contended pre-state, no choice involved), then
+    k free steps - reaches operations blocked on SEVERAL resources within a short free suffix"""
     OPS = [f"o{i}" for i in range(nops)]
     RES = [f"r{i}" for i in range(nres)]
 
@@ -72,6 +74,12 @@ def history(nops, nres, k, preempt):
         blocked = set()      # (op, resource): latest attempt BLOCKED, not since acquired, op alive
         used_o, used_r = 0, 0
         trace = []
+        if own:
+            for o, r in zip(OPS, RES):
+                got = ctl.acquire_resource(ctxs[o], r)
+                c.check("C15.pre", got == LockResult.ACQUIRED, {"what": "free resource not acquired in the contended pre-state", "op": o, "resource": r})
+                trace.append(f"acquire:{o}:{r}")
+            used_r = nres
         for i in range(k):
             # symmetry breaking on RESOURCES only (first use takes the least unused index). Operations are NOT
             # interchangeable: the code under test sorts / iterates operation ids, so every id assignment is explored
@@ -208,11 +216,13 @@ HARNESSES = {
     "graph": {"make": graph, "witness_every": 101, "jobs": lambda tier: [{"n": 3}, {"n": 4}], "clauses": ["C15.a-missed", "C15.a-phantom", "C15.b-members"]},
     "history": {"make": history, "witness_every": 23,
                 "jobs": lambda tier: ([{"nops": 2, "nres": 3, "k": 6, "preempt": [False]}, {"nops": 3, "nres": 3, "k": 5, "preempt": [False]},
-                                       {"nops": 3, "nres": 2, "k": 5, "preempt": [True]}, {"nops": 2, "nres": 3, "k": 5, "preempt": [True, False]}] if tier == "quick" else
+                                       {"nops": 3, "nres": 2, "k": 5, "preempt": [True]}, {"nops": 2, "nres": 3, "k": 5, "preempt": [True, False]},
+                                       {"nops": 3, "nres": 3, "k": 3, "preempt": [False], "own": True}] if tier == "quick" else
                                       [{"nops": 2, "nres": 2, "k": 8, "preempt": [False]}, {"nops": 3, "nres": 3, "k": 6, "preempt": [False]},
                                        {"nops": 3, "nres": 2, "k": 6, "preempt": [True]}, {"nops": 2, "nres": 3, "k": 7, "preempt": [True, False]},
-                                       {"nops": 3, "nres": 3, "k": 6, "preempt": [False, True, True]}]),
-                "clauses": ["C15.a-missed", "C15.a-phantom", "C15.b-live", "C15.b-edges", "C15.b-members", "C15.c", "C15.c-lowest", "C15.c-owns", "C15.c-gone"]},
+                                       {"nops": 3, "nres": 3, "k": 6, "preempt": [False, True, True]},
+                                       {"nops": 3, "nres": 3, "k": 4, "preempt": [False], "own": True}]),
+                "clauses": ["C15.pre", "C15.a-missed", "C15.a-phantom", "C15.b-live", "C15.b-edges", "C15.b-members", "C15.c", "C15.c-lowest", "C15.c-owns", "C15.c-gone"]},
 }
 
 META = {
@@ -222,8 +232,8 @@ META = {
         "technique": "exhaustive symbolic-choice histories through controller.py/types.py/watchdog.py vs reference wait-for graph; symbolic priorities via z3",
     },
     "files": ["operon_ai/coordination/controller.py", "operon_ai/coordination/types.py", "operon_ai/coordination/watchdog.py"],
-    "bounds": {"quick": "cycle search on all 65 661 ordered wait-for graphs over 3 and 4 operations; histories: (2 ops,3 res,k=6), (3,3,k=5) without preemption; (3,2,k=5) preemptable; (2,3,k=5) mixed; priorities 0..3 symbolic",
-               "thorough": "(ops,resources,depth): (2,2,k=8), (3,3,k=6), (3,2,k=6 preemptable), (2,3,k=7 mixed), (3,3,k=6 mixed); (2,3,k=8) and (3,2,k=7 preemptable) exceed 5 minutes each on 16 cores since operation ids are no longer symmetry-reduced: outside"},
+    "bounds": {"quick": "cycle search on all 65 661 ordered wait-for graphs over 3 and 4 operations; histories: (2 ops,3 res,k=6), (3,3,k=5) without preemption; (3,2,k=5) preemptable; (2,3,k=5) mixed; (3,3) from the contended pre-state (o_i owns r_i) k=3 free steps; priorities 0..3 symbolic",
+               "thorough": "(ops,resources,depth): (2,2,k=8), (3,3,k=6), (3,2,k=6 preemptable), (2,3,k=7 mixed), (3,3,k=6 mixed), (3,3) contended pre-state + k=4; (2,3,k=8) and (3,2,k=7 preemptable) exceed 5 minutes each on 16 cores since operation ids are no longer symmetry-reduced: outside"},
     "outside": ["histories longer than k", "more than 3 operations/resources", "timeouts (C14 watchdog harness)", "priority inheritance"],
     "float_argument": "none",
     "assumptions": ["all operations are started up front; ended operations are not restarted"],
